@@ -125,20 +125,28 @@ func caseRelay(r *mon.Rec, idx int) {
 				fail("hop-count", "level %d from inside has hop count %d, want %d", depth-1-k, rm.HopCount, wantHop)
 				return
 			}
+			// a relay agent puts its own options behind or in front of the Relay Message option (both orders are seen)
+			add := func(o dhcpv6.Option) {
+				if rng.IntN(3) == 0 {
+					rm.Options.Options = append(dhcpv6.Options{o}, rm.Options.Options...)
+				} else {
+					rm.AddOption(o)
+				}
+			}
 			if rng.IntN(2) == 0 {
 				lv.iid = gen4.Bytes(rng, 1+rng.IntN(8))
 				if rng.IntN(4) == 0 { // carried as an untyped option (same code, same bytes on the wire): an option like any other
-					rm.AddOption(&dhcpv6.OptionGeneric{OptionCode: dhcpv6.OptionInterfaceID, OptionData: append([]byte{}, lv.iid...)})
+					add(&dhcpv6.OptionGeneric{OptionCode: dhcpv6.OptionInterfaceID, OptionData: append([]byte{}, lv.iid...)})
 				} else {
-					rm.AddOption(dhcpv6.OptInterfaceID(lv.iid))
+					add(dhcpv6.OptInterfaceID(lv.iid))
 				}
 			}
 			if rng.IntN(2) == 0 {
 				lv.rid = &dhcpv6.OptRemoteID{EnterpriseNumber: rng.Uint32(), RemoteID: gen4.Bytes(rng, rng.IntN(8))}
 				if rng.IntN(4) == 0 {
-					rm.AddOption(&dhcpv6.OptionGeneric{OptionCode: dhcpv6.OptionRemoteID, OptionData: lv.rid.ToBytes()})
+					add(&dhcpv6.OptionGeneric{OptionCode: dhcpv6.OptionRemoteID, OptionData: lv.rid.ToBytes()})
 				} else {
-					rm.AddOption(lv.rid)
+					add(lv.rid)
 				}
 			}
 			if rng.IntN(3) == 0 { // unrelated options must not disturb anything
@@ -250,6 +258,26 @@ func caseRelay(r *mon.Rec, idx int) {
 		// relay-reply from relay-forward
 		reply, rdesc := inner(rng, g, 7)
 		replyTree := proj.M6(reply).String()
+		// a server has usually been handed chains it had to refuse before this one (a level without its Relay Message
+		// option, with interface-id and remote-id of its own): whatever the builder returns for those, the next
+		// chain's reply is made of that chain alone
+		if rng.IntN(3) == 0 {
+			var broken dhcpv6.DHCPv6 = &dhcpv6.RelayMessage{MessageType: dhcpv6.MessageTypeRelayForward, HopCount: 0, LinkAddr: net.ParseIP("2001:db8:bad::1"), PeerAddr: net.ParseIP("fe80::bad")}
+			broken.AddOption(dhcpv6.OptInterfaceID([]byte("refused-if")))
+			for k := rng.IntN(3); k >= 0; k-- {
+				w, werr := dhcpv6.EncapsulateRelay(broken, dhcpv6.MessageTypeRelayForward, net.ParseIP("2001:db8:bad::2"), net.ParseIP("fe80::bad:2"))
+				if werr != nil {
+					break
+				}
+				w.AddOption(dhcpv6.OptInterfaceID([]byte("refused-outer")))
+				w.AddOption(&dhcpv6.OptRemoteID{EnterpriseNumber: 9, RemoteID: []byte("refused")})
+				broken = w
+			}
+			if br, ok := broken.(*dhcpv6.RelayMessage); ok {
+				_, _ = dhcpv6.NewRelayReplFromRelayForw(br, reply)
+				r.Count("refused_chains_before_a_reply", 1)
+			}
+		}
 		for _, src := range []struct {
 			tag string
 			fw  dhcpv6.DHCPv6
